@@ -59,6 +59,7 @@ Lemma commit_one_covers : forall c now t q r rest t1 q1, keyed t ->
 Proof.
   intros c now t q r rest t1 q1 Hk Hnin Hpast Hcov H pk.
   destruct (commit_one_spec _ _ _ _ _ _ _ _ Hk H) as [Ho [Hc Hq]].
+  pose proof (queued_pk t r Hk) as Qk.
   assert (NotRest : forall r', In r' rest -> o_pk (r_obj r') = o_pk (r_obj r) -> False).
   { intros r' Hin Heq. apply Hnin. rewrite <- Heq. apply (in_map (fun r => o_pk (r_obj r))). exact Hin. }
   specialize (Hcov pk). unfold covered in *.
@@ -66,9 +67,9 @@ Proof.
   2:{ (* another key: slot and item untouched, its covering result is in the rest *)
     rewrite (Ho pk E).
     assert (IC : forall d rv, item_covers q pk d rv -> item_covers q1 pk d rv).
-    { intros d rv Hi. rewrite Hq. destruct (negb (r_ok r) && wrote t t1); [apply item_covers_add_other; assumption|exact Hi]. }
+    { intros d rv Hi. rewrite Hq. destruct (negb (r_ok r) && wrote t t1); [apply item_covers_add_other; [rewrite Qk|]; assumption|exact Hi]. }
     assert (IU : item_upd q pk -> item_upd q1 pk).
-    { intros Hi. rewrite Hq. destruct (negb (r_ok r) && wrote t t1); [apply item_upd_add_other; assumption|exact Hi]. }
+    { intros Hi. rewrite Hq. destruct (negb (r_ok r) && wrote t t1); [apply item_upd_add_other; [rewrite Qk|]; assumption|exact Hi]. }
     destruct (slot_of t pk) as [[o rev|o rev]|]; [|destruct Hcov as [A|[A|A]]; [left; exact A|right; left; apply IC; exact A|right; right; exact A]|exact I].
     destruct (o_kind o).
     - destruct Hcov as [A|[r' [[A1|A1] [A2 A3]]]]; [left; exact A|subst r'; congruence|right; exists r'; repeat split; assumption].
@@ -78,8 +79,8 @@ Proof.
   subst pk.
   assert (Queued : r_ok r = false -> t_rev t1 = t_rev t + 1 -> item_upd q1 (o_pk (r_obj r))).
   { intros Eok C. rewrite Hq, Eok. cbn [negb andb]. unfold wrote. rewrite C, N.eqb_refl.
-    destruct (add_item_spec q (r_obj r) (t_rev t + 1) (r_orig r) false now) as [it [I1 [_ [I3 [I4 [I5 [I6 _]]]]]]].
-    exists it. repeat split; try assumption. rewrite I3, I4. lia. }
+    destruct (add_item_spec q (queued t r) (t_rev t + 1) (r_orig r) false now) as [it [I1 [_ [I3 [I4 [I5 [I6 _]]]]]]].
+    rewrite Qk in I1. exists it. repeat split; try assumption. rewrite I3, I4. lia. }
   destruct Hc as [[A [B C]]|[[cur [A [B C]]]|[cur [rv0 [A [A2 [A3 [B C]]]]]]]].
   - (* nothing written: the queue is unchanged and this result did not cover the current object *)
     assert (Hq1 : q1 = q).
